@@ -4,6 +4,7 @@ mod codec;
 mod gen;
 mod rng;
 mod streams;
+mod watch;
 
 use std::io::Write;
 
